@@ -823,6 +823,8 @@ def _plain_shaped(e: ast.AST, plain_names: set[str], depth: int = 0) -> bool:
         if f in _PLAIN_CALLS or f.split('.')[-1] in ('get', 'getvalue', 'read', 'find', 'rfind', 'count', 'strip', 'rstrip', 'lstrip', 'lower', 'upper',
                                                      'join', 'format', 'group', 'normpath', 'dirname', 'basename', 'abspath', 'total_seconds'):
             return True
+        if f.split('.')[0] in ('zlib', 'hashlib', 'binascii', 'math', 'os', 'sys', 'time', 'struct', 'unicodedata') and '.' in f:
+            return True          # a function of a standard module that deals in numbers, bytes and texts: what it returns is not a model
         return False
     if isinstance(e, (ast.BinOp, ast.UnaryOp)):
         return True
